@@ -1607,11 +1607,14 @@ class VacancyMediated(object):
             G0db = np.dot(G0, biasVvec)  # G0*db
             # 2 eta0*db + 2 eta0*dgd*G0*db + eta0*dgd*eta0  (domega = delta_om + om2)
             # - etaV0*biasV0 (correction due to removing states)
+            # the lone-vacancy correction is folded up with the solute site probability of each complex
+            probSsqrt = np.array([np.sqrt(probS[self.kineticsvWyckoff[starindex][0]]) for starindex in self.vstar2kin])
+            OSVprobS = self.OSVfolddown * probSsqrt
             L1vv += np.dot(outer_etaV0,
-                           2 * np.dot(self.OSVfolddown, biasVvec)
-                           + 2 * np.dot(self.OSVfolddown, np.dot(dgd, G0db))
-                           + np.dot(np.dot(self.OSVfolddown, np.dot(dgd, self.OSVfolddown.T)), etaV0)
-                           - biasVvec[self.OSindices]
+                           2 * np.dot(OSVprobS, biasVvec)
+                           + 2 * np.dot(OSVprobS, np.dot(dgd, G0db))
+                           + np.dot(np.dot(OSVprobS, np.dot(dgd, OSVprobS.T)), etaV0)
+                           - biasVvec[self.OSindices] * probSsqrt[self.OSindices]
                            ) / self.N
 
         # L0vv is the cached array (shared with the GF calculator): hand back a copy, like the other three
